@@ -1,8 +1,10 @@
 package main
 
 import (
+	"encoding/hex"
 	"fmt"
 	"math/big"
+	"strconv"
 	"strings"
 
 	"golang.org/x/crypto/sha3"
@@ -178,12 +180,18 @@ type universe struct {
 	addr  []common.Address
 	role  []string // life cycle of the address in the start state
 	short []string
+	// prep, if set, is run on every freshly opened instance and must end in Commit: the
+	// history then runs on the same (cache-warm, committed) AccountDB object.
+	prep func(st *account.AccountDB)
 }
 
 func (u *universe) open() *account.AccountDB {
 	st, err := account.NewAccountDB(u.root, u.db)
 	if err != nil {
 		panic(fmt.Errorf("open start state %s: %v", u.name, err))
+	}
+	if u.prep != nil {
+		u.prep(st)
 	}
 	return st
 }
@@ -263,49 +271,74 @@ func (x *impl) exec(u *universe, o Op, ft bool) {
 
 // ---- observation: every query named in the property statement -----------------------------
 
-type kv struct{ k, v string }
+func hexs(b []byte) string { return hex.EncodeToString(b) }
 
-func hexs(b []byte) string { return fmt.Sprintf("%x", b) }
+func bstr(b bool) string {
+	if b {
+		return "true"
+	}
+	return "false"
+}
 
-// observe asks every query of the statement over the closed universe, in a fixed order
-// (cache-warming reads first, Empty last so that its answer does not depend on whether
-// this very observation already ran once).
-func observe(st *account.AccountDB, u *universe, ft bool) []kv {
-	out := make([]kv, 0, 16*len(u.addr)+4)
-	add := func(k, v string) { out = append(out, kv{k, v}) }
-	for i, a := range u.addr {
+const undef = "\x01"
+
+// obsKeys lists the queries of one full observation, in the order observe asks them:
+// cache-warming reads first, Empty last so that its answer does not depend on whether
+// this very observation already ran once.
+func obsKeys(u *universe, ft bool) []string {
+	var out []string
+	for i := range u.addr {
 		n := u.short[i]
-		add("GetBalance("+n+")", st.GetBalance(a).String())
-		add("GetNonce("+n+")", fmt.Sprint(st.GetNonce(a)))
-		add("GetData("+n+",s1)", hexs(st.GetData(a, slotKey(1))))
-		add("GetData("+n+",s2)", hexs(st.GetData(a, slotKey(2))))
+		out = append(out, "GetBalance("+n+")", "GetNonce("+n+")", "GetData("+n+",s1)", "GetData("+n+",s2)")
 		if ft {
-			add("GetData("+n+",ft)", hexs(st.GetData(a, slotKey(slotFT))))
+			out = append(out, "GetData("+n+",ft)")
 		}
-		add("GetCode("+n+")", hexs(st.GetCode(a)))
+		out = append(out, "GetCode("+n+")", "GetCodeHash("+n+")", "Exist("+n+")", "HasSuicided("+n+")")
+	}
+	for i := range u.addr {
+		out = append(out, "Empty("+u.short[i]+")")
+	}
+	out = append(out, "GetRefund()", "GetLogs()")
+	for i := range u.addr {
+		n := u.short[i]
+		out = append(out, "AddressInAccessList("+n+")", "SlotInAccessList("+n+",s1)", "SlotInAccessList("+n+",s2)", "GetTransientState("+n+",k1)")
+	}
+	return out
+}
+
+func logStr(l *types.Log, index uint, txIndex uint) string {
+	return fmt.Sprintf("%x/%x/%x/i%d/t%d", l.Address[:], l.Topics, l.Data, index, txIndex)
+}
+
+// observe asks every query of the statement over the closed universe (answers in obsKeys order).
+func observe(st *account.AccountDB, u *universe, ft bool) []string {
+	out := make([]string, 0, 16*len(u.addr)+4)
+	for _, a := range u.addr {
+		out = append(out, st.GetBalance(a).String(), strconv.FormatUint(st.GetNonce(a), 10),
+			hexs(st.GetData(a, slotKey(1))), hexs(st.GetData(a, slotKey(2))))
+		if ft {
+			out = append(out, hexs(st.GetData(a, slotKey(slotFT))))
+		}
 		h := st.GetCodeHash(a)
-		add("GetCodeHash("+n+")", hexs(h[:]))
-		add("Exist("+n+")", fmt.Sprint(st.Exist(a)))
-		add("HasSuicided("+n+")", fmt.Sprint(st.HasSuicided(a)))
+		out = append(out, hexs(st.GetCode(a)), hexs(h[:]), bstr(st.Exist(a)), bstr(st.HasSuicided(a)))
 	}
-	for i, a := range u.addr {
-		add("Empty("+u.short[i]+")", fmt.Sprint(st.Empty(a)))
+	for _, a := range u.addr {
+		out = append(out, bstr(st.Empty(a)))
 	}
-	add("GetRefund()", fmt.Sprint(st.GetRefund()))
+	out = append(out, strconv.FormatUint(st.GetRefund(), 10))
 	var lg []string
 	for _, l := range st.GetLogs(common.Hash{}) {
-		lg = append(lg, fmt.Sprintf("%x/%x/%x/i%d/t%d", l.Address[:], l.Topics, l.Data, l.Index, l.TxIndex))
+		lg = append(lg, logStr(l, l.Index, l.TxIndex))
 	}
-	add("GetLogs()", strings.Join(lg, ";"))
-	for i, a := range u.addr {
-		n := u.short[i]
-		add("AddressInAccessList("+n+")", fmt.Sprint(st.AddressInAccessList(a)))
+	out = append(out, strings.Join(lg, ";"))
+	for _, a := range u.addr {
+		out = append(out, bstr(st.AddressInAccessList(a)))
 		for s := 1; s <= 2; s++ {
 			ap, sp := st.SlotInAccessList(a, slotHash(s))
-			add(fmt.Sprintf("SlotInAccessList(%s,s%d)", n, s), fmt.Sprint(ap, sp))
+			out = append(out, bstr(ap)+" "+bstr(sp))
 		}
 		t := st.GetTransientState(a, transKey(1))
-		add("GetTransientState("+n+",k1)", hexs(t[:]))
+		out = append(out, hexs(t[:]))
 	}
 	return out
 }
@@ -321,47 +354,47 @@ func accessorOf(key string) (name, who string) {
 	return name, rest
 }
 
-// modelObserve renders the model's answers under the same keys (Empty is not defined by
-// the model: the implementation's notion depends on its caches; it is checked
-// differentially only).
-func (m *model) observe(u *universe, ft bool) map[string]string {
-	out := map[string]string{}
+var zeroHashHex = hexs(make([]byte, 32))
+var emptyCodeHashHex = hexs(emptyCodeHash[:])
+
+// observe renders the model's answers in obsKeys order.  Empty is not defined by the
+// model (the implementation's notion depends on its caches); it is checked differentially only.
+func (m *model) observe(u *universe, ft bool) []string {
+	out := make([]string, 0, 16*len(u.addr)+4)
 	for i := range u.addr {
-		n := u.short[i]
 		a := &m.Acct[i]
-		out["GetBalance("+n+")"] = m.Bal[i].String()
-		out["GetNonce("+n+")"] = fmt.Sprint(a.Nonce)
-		out["GetData("+n+",s1)"] = hexs(a.Store[1])
-		out["GetData("+n+",s2)"] = hexs(a.Store[2])
+		out = append(out, m.Bal[i].String(), strconv.FormatUint(a.Nonce, 10), hexs(a.Store[1]), hexs(a.Store[2]))
 		if ft {
-			out["GetData("+n+",ft)"] = hexs(a.Store[slotFT])
+			out = append(out, hexs(a.Store[slotFT]))
 		}
-		out["GetCode("+n+")"] = hexs(a.Code)
+		ch := zeroHashHex
 		switch {
 		case !a.Exists:
-			out["GetCodeHash("+n+")"] = hexs(make([]byte, 32))
 		case len(a.Code) == 0:
-			out["GetCodeHash("+n+")"] = hexs(emptyCodeHash[:])
+			ch = emptyCodeHashHex
 		default:
 			h := crypto.Keccak256Hash(a.Code)
-			out["GetCodeHash("+n+")"] = hexs(h[:])
+			ch = hexs(h[:])
 		}
-		out["Exist("+n+")"] = fmt.Sprint(a.Exists)
-		out["HasSuicided("+n+")"] = fmt.Sprint(a.Suicided)
-		out["AddressInAccessList("+n+")"] = fmt.Sprint(m.ALAddr[i])
-		for s := 1; s <= 2; s++ {
-			out[fmt.Sprintf("SlotInAccessList(%s,s%d)", n, s)] = fmt.Sprint(m.ALAddr[i], m.ALSlot[[2]int{i, s}])
-		}
-		t := transVal(m.Trans[[2]int{i, 1}])
-		out["GetTransientState("+n+",k1)"] = hexs(t[:])
+		out = append(out, hexs(a.Code), ch, bstr(a.Exists), bstr(a.Suicided))
 	}
-	out["GetRefund()"] = fmt.Sprint(m.Refund)
+	for range u.addr {
+		out = append(out, undef)
+	}
+	out = append(out, strconv.FormatUint(m.Refund, 10))
 	var lg []string
 	for idx, v := range m.Logs {
-		l := logVal(u, v)
-		lg = append(lg, fmt.Sprintf("%x/%x/%x/i%d/t%d", l.Address[:], l.Topics, l.Data, idx, 0))
+		lg = append(lg, logStr(logVal(u, v), uint(idx), 0))
 	}
-	out["GetLogs()"] = strings.Join(lg, ";")
+	out = append(out, strings.Join(lg, ";"))
+	for i := range u.addr {
+		out = append(out, bstr(m.ALAddr[i]))
+		for s := 1; s <= 2; s++ {
+			out = append(out, bstr(m.ALAddr[i])+" "+bstr(m.ALAddr[i] && m.ALSlot[[2]int{i, s}]))
+		}
+		t := transVal(m.Trans[[2]int{i, 1}])
+		out = append(out, hexs(t[:]))
+	}
 	return out
 }
 
